@@ -1,4 +1,4 @@
-# U-iter: the fixed-variable steps of the enumeration (C11: "a mask restricts the enumeration to the matching assignments and nothing else"; expansion of
+# U-iter: the per-variable steps of the enumeration (first_pri and first_unpr, fixed and free variables) (C11: "a mask restricts the enumeration to the matching assignments and nothing else"; expansion of
 # skipped primed levels by the reduction rule): iterator_templ<EdgeOp_none>::first_pri (src/dd_edge.cc) on a primed variable that the mask fixes (U_to(k) == 0), and iterator_templ<EdgeOp_none>::first_unpr on an unprimed variable that the mask fixes (U_from(k) == 0).
 M = 'src/dd_edge.cc'
 def job(name, enforce, replace=(), props=('C11',), **kw):
@@ -30,6 +30,7 @@ UNIT = {
     'text_subst': [
         # the step below a FIXED variable (three sites, all in fixed-variable branches): a recording ghost call instead of the recursion
         (r'return first_unpr\(k-1, pdn\);', 'return verif_first_unpr_below(this, k-1, pdn);', M),
+        (r'if \(first_unpr\(k-1, U->down\(z\)\)\) return true;', 'if (verif_first_unpr_below(this, k-1, U->down(z))) return true;', M),
         (r'const edge_value& up = isForSets\(\) \? ev_from\(k\+1\) : ev_to\(k\+1\);', 'const edge_value& up = ev_from(k+1);', M),
         (r'edge_value zero;', 'struct edge_value *verif_zero = verif_zero_ev();', M),
         (r'EOP::clear\(zero\);', 'EOP::clear(*verif_zero);', M),
@@ -51,10 +52,10 @@ UNIT = {
         dict(cls='iterator_templ', name='first_pri', file=M, where='out', loops=1),
         dict(cls='iterator_templ', name='first_unpr', file=M, where='out', loops=2),
     ],
-    'stubs': ['text_subst (each must match the source): the three calls `return first_unpr(k-1, pdn);` below a FIXED variable become a recording ghost call (so the recursion of first_unpr into itself is an assumed step, not an induction); in first_unpr the reference `isForSets() ? ev_from(k+1) : ev_to(k+1)` (a conditional lvalue, not C) is extracted as `ev_from(k+1)` - it sits in the edge-valued branch, which is dead for EdgeOp_none', 'the iterator cursor accessors (M_from / M_to / mask_to / U_to ...) return ghost cells; first_unpr (the step below) records its arguments and returns an arbitrary answer; '
+    'stubs': ['text_subst (each must match the source): the calls `return first_unpr(k-1, pdn);` and `if (first_unpr(k-1, U->down(z))) return true;` become a recording ghost call with the contract of the recording first_unpr stub (so the recursion of first_unpr into itself is an assumed step, not an induction); in first_unpr the reference `isForSets() ? ev_from(k+1) : ev_to(k+1)` (a conditional lvalue, not C) is extracted as `ev_from(k+1)` - it sits in the edge-valued branch, which is dead for EdgeOp_none', 'the iterator cursor accessors (M_from / M_to / mask_to / U_to ...) return ghost cells; first_unpr (the step below) records its arguments and returns an arbitrary answer; '
               'forest getters, getDownPtr and the unpacked-node calls are ghost values'],
-    'assumptions': ['job first_pri_fixed covers BOTH branches of first_pri since 2026-09-23 (the name is historical): g_U == NULL is the fixed variable, otherwise the scan over the free primed variable; in the scan the step below answers true exactly on one ghost child, which first occurs at ghost position g_zs (any position, or none): the sparse cursor node is assumed sorted by index (U-sortb), so ascending position is lexicographic order', 'EdgeOp_none::hasEdgeValues() is an executable stub returning false (as in src/forest_edgerules.h), U_to(k) an executable stub returning the ghost cursor', 'EdgeOp_none instance (no edge values); first_unpr: only the fixed-variable branch (U_from(k) == 0) is entered, its two scans over a free unprimed variable are proved unreachable there and are not under contract'],
-    'unverified_surroundings': {'C11': ['iterator_templ::next, the two free-variable scans of first_unpr, random_*; edge-valued instances of the iterator; that the steps add up to the enumeration of the function (induction over the diagram)']},
+    'assumptions': ['job first_pri_fixed covers BOTH branches of first_pri since 2026-09-23 (the name is historical): g_U == NULL is the fixed variable, otherwise the scan over the free primed variable; in the scan the step below answers true exactly on one ghost child, which first occurs at ghost position g_zs (any position, or none): the sparse cursor node is assumed sorted by index (U-sortb), so ascending position is lexicographic order', 'EdgeOp_none::hasEdgeValues() is an executable stub returning false (as in src/forest_edgerules.h), U_to(k) an executable stub returning the ghost cursor', 'EdgeOp_none instance (no edge values); job first_unpr_fixed likewise covers the fixed branch and both scans (sets, relations) of first_unpr'],
+    'unverified_surroundings': {'C11': ['iterator_templ::next, iterator_templ::next (the advance after the first assignment), random_*; edge-valued instances of the iterator; that the steps add up to the enumeration of the function (induction over the diagram)']},
     'jobs': [
         job('first_pri_fixed', 'iterator_templ__first_pri', STUBS, loops=1, object_bits=11),
         job('first_unpr_fixed', 'iterator_templ__first_unpr', [x for x in STUBS if x != 'iterator_templ__first_unpr'] + ['iterator_templ__first_pri', 'iterator_templ__Z_from', 'iterator_templ__isMultiTerminal', 'iterator_templ__M_setTerm', 'iterator_templ__M_setTerm_ev'], loops=2, object_bits=11, defines=['JOB_UNPR'], recursive=True),
